@@ -28,16 +28,31 @@ Theorem C08_write_wf : forall (E : Type) (ren : option (list (Z * Z))) (w : wsta
 Proof. intros E. exact write_wf. Qed.
 Print Assumptions C08_write_wf.
 
-(* de-duplication + renumbering + remove_empty_volumes + remove_unused_volumes keep the
-   references closed and ESTABLISH "no surface on both sides", provided the union helper
-   planes are still in the surface table afterwards (the guard the code does not check) *)
+(* de-duplication + renumbering (of the volumes AND of the helper planes, fix a12128b) +
+   remove_empty_volumes + remove_unused_volumes keep the references closed and ESTABLISH
+   "no surface on both sides".  No guard on the pipeline any more: helpers_ok only says
+   what construct_volume_t4 inserts (two different planes under two different numbers in a
+   dictionary); that they survive de-duplication under their new, still different, numbers
+   is now a lemma (helpers_renumbered).  eeqb = SurfaceT4.__eq__, symmetric and transitive *)
 Theorem C08_prune_preserves_wf :
-  forall (E : Type) (eeqb : E -> E -> bool) skip_dedup (surfs : stable E) vols u0 u1 surfs' vols' ren',
-  refs_ok surfs vols -> u0 <> u1 -> helpers_survive eeqb skip_dedup surfs u0 u1 ->
+  forall (E : Type) (eeqb : E -> E -> bool),
+  (forall x y, eeqb x y = eeqb y x) ->
+  (forall x y z, eeqb x y = true -> eeqb y z = true -> eeqb x z = true) ->
+  forall skip_dedup (surfs : stable E) vols u0 u1 surfs' vols' ren',
+  refs_ok surfs vols -> helpers_ok eeqb surfs u0 u1 ->
   prune eeqb skip_dedup surfs vols u0 u1 = Ok (surfs', vols', ren') ->
   refs_ok surfs' vols' /\ sides_ok vols'.
 Proof. intros E. exact (@prune_preserves_wf E). Qed.
 Print Assumptions C08_prune_preserves_wf.
+
+(* ... and it never raises (no KeyError of renumbering[s] / renumber[surf], no ValueError of
+   max(), no exhausted fuel) on a non-empty volume table *)
+Theorem C08_prune_total :
+  forall (E : Type) (eeqb : E -> E -> bool) skip_dedup (surfs : stable E) vols u0 u1,
+  refs_ok surfs vols -> helpers_ok eeqb surfs u0 u1 -> vols <> [] ->
+  exists r, prune eeqb skip_dedup surfs vols u0 u1 = Ok r.
+Proof. intros E. exact (@prune_total E). Qed.
+Print Assumptions C08_prune_total.
 
 (* remove_empty_volumes terminates within the model's fuel (it never returns None) and
    its result has closed references and no volume with a surface on both sides *)
@@ -66,41 +81,6 @@ Theorem C08_wf_stateb_sound : forall (E : Type) (w : wstate E), wf_stateb w = tr
 Proof. intros E. exact wf_stateb_sound. Qed.
 Print Assumptions C08_wf_stateb_sound.
 
-(* ---- refutations: the unguarded statements are false of the faithful model ------------- *)
-(* #7 an operand that is not a number: INTE 1 None *)
-Theorem C08_none_operand_refuted :
-  exists (w : wstate nat) f,
-    write_file None w = Complete f /\ ~ wf_file f /\
-    In "VOLU 14 EQUA MINUS 1 1 INTE 1 None ENDV // (10, 1)"%string (print_file f).
-Proof. exact none_operand_refuted. Qed.
-Print Assumptions C08_none_operand_refuted.
-
-(* #8 closed tables, yet the default pipeline dies with KeyError inside the SURF block *)
-Theorem C08_helper_plane_refuted :
-  exists (surfs : stable nat) vols u0 u1,
-    refs_ok surfs vols /\ u0 <> u1 /\ In u0 (keys surfs) /\ In u1 (keys surfs) /\
-    ~ helpers_survive Nat.eqb false surfs u0 u1 /\
-    (exists surfs' vols' ren' sl,
-       prune Nat.eqb false surfs vols u0 u1 = Ok (surfs', vols', ren') /\
-       write_file ren' (w8 surfs' vols') = Died true sl EKey /\
-       print_outcome (Died true sl EKey) =
-         (geometry_head ++ ["SURF 1 PLANEX 1.0"; "SURF 2 PLANEY 0.0"]%string)%list) /\
-    (exists surfs' vols' ren' f,
-       prune Nat.eqb true surfs vols u0 u1 = Ok (surfs', vols', ren') /\
-       write_file ren' (w8 surfs' vols') = Complete f /\ wf_file f).
-Proof. exact helper_plane_refuted. Qed.
-Print Assumptions C08_helper_plane_refuted.
-
-(* #16 GEOMCOMP names a composition that is not written *)
-Theorem C08_leading_zero_refuted :
-  exists (w : wstate nat) f g c,
-    write_file None w = Complete f /\ ~ wf_file f /\
-    f_geomcomp f = Some g /\ map gc_name g = ["m01_-1.0"%string] /\
-    f_comps f = Some c /\ map cb_name (snd c) = ["m1_-1.0"; "m0"]%string /\
-    refs_ok (w_surfs w) (w_vols w) /\ sides_ok (w_vols w).
-Proof. exact leading_zero_refuted. Qed.
-Print Assumptions C08_leading_zero_refuted.
-
 (* boundary conditions (repaired writeT4BoundCond): for EVERY complete run of the writers —
    no hypothesis on the tables, the renumbering or the flags — each listed surface is
    defined in the file and listed once, and the declared count is the number of entries *)
@@ -113,9 +93,36 @@ Theorem C08_bc_defined : forall (E : Type) (ren : option (list (Z * Z))) (w : ws
 Proof. intros E. exact bc_defined. Qed.
 Print Assumptions C08_bc_defined.
 
-(* ---- non-vacuity ------------------------------------------------------------------------ *)
+(* ---- non-vacuity (tables of real runs; the first three were refutation witnesses before
+   the repairs 3f9f4fd, a12128b, d8902ad) ------------------------------------------------------ *)
+Example C08_empty_filler_example :
+  refs_ok surfs7 vols7 /\ helpers_ok Nat.eqb surfs7 6 7 /\
+  exists surfs' vols' ren' f,
+    prune Nat.eqb false surfs7 vols7 6 7 = Ok (surfs', vols', ren') /\
+    wf_state (w7 surfs' vols') /\
+    write_file ren' (w7 surfs' vols') = Complete f /\ wf_file f /\
+    vol_ids f = [15; 16; 18; 19]%Z /\ surf_ids f = [1; 3; 4]%Z.
+Proof. exact empty_filler_example. Qed.
+
+Example C08_helper_plane_example :
+  refs_ok surfs8 vols8 /\ helpers_ok Nat.eqb surfs8 5 6 /\
+  exists surfs' vols' ren' f,
+    prune Nat.eqb false surfs8 vols8 5 6 = Ok (surfs', vols', ren') /\
+    write_file ren' (w8 surfs' vols') = Complete f /\ wf_file f /\
+    In "VOLU 1 EQUA PLUS 1 1 MINUS 1 6 UNION 1 6 ENDV"%string (print_file f) /\
+    surf_ids f = [1; 2; 6]%Z.
+Proof. exact helper_plane_example. Qed.
+
+Example C08_leading_zero_example :
+  wf_state w16 /\
+  exists f g c,
+    write_file None w16 = Complete f /\ wf_file f /\
+    f_geomcomp f = Some g /\ map gc_name g = ["m1_-1.0"%string] /\
+    f_comps f = Some c /\ map cb_name (snd c) = ["m1_-1.0"; "m0"]%string.
+Proof. exact leading_zero_example. Qed.
+
 Example C08_example :
-  refs_ok surfs_ex vols_ex /\ helpers_survive Nat.eqb false surfs_ex 7 8 /\
+  refs_ok surfs_ex vols_ex /\ helpers_ok Nat.eqb surfs_ex 7 8 /\
   exists surfs' vols' ren' f,
     prune Nat.eqb false surfs_ex vols_ex 7 8 = Ok (surfs', vols', ren') /\
     wf_state (w_ex surfs' vols') /\
